@@ -439,6 +439,68 @@ fn check_inf(c: &AggCase, obs: &mut Obs) -> CheckResult {
     }
 }
 
+/// Integer series whose values (up to +-2.1e9) fit the element type while their sums do not: every
+/// aggregation whose RESULT is a float (mean, masked mean, variance .. kurtosis, covariance,
+/// correlation) is still defined by the textbook formula on those values, and extrema / positions are
+/// exact. The element-typed sums (vsum, sum, n_sum, n_vsum_filter) are not asked: their result type
+/// cannot hold the value.
+fn large_int_typed<T>(c: &AggCase, obs: &mut Obs) -> CheckResult
+where
+    T: InElem + OutElem + tevec::prelude::IsNone + PartialEq,
+    T::Inner: tevec::prelude::Number + OutElem + PartialOrd + PartialEq,
+    T::Cast<f64>: OutElem,
+{
+    // scale the (integer-valued, |v| <= ~4.2e6 or smaller) series up to the i32 range
+    let peak = c.x.iter().chain(c.y.iter()).flatten().fold(1.0f64, |m, v| m.max(v.abs()));
+    let k = (2_100_000_000.0 / peak).floor().max(1.0);
+    let big = |s: &Series| -> Series { s.iter().map(|v| v.map(|v| (v * k).round())).collect() };
+    let (x, y) = (big(&c.x), big(&c.y));
+    let d: Vec<T> = materialize(&x);
+    let e: Vec<T> = materialize(&y);
+    let mp = c.mp;
+    chk("vmean:large-int", nan_opt(with_src!(c, d, |it| sa::vmean(it))), &expect_agg(Stat::Mean, &x, 0), obs)?;
+    let (m, v) = with_src!(c, d, |it| sa::vmean_var(it, mp));
+    chk("vmean_var.mean:large-int", nan_opt(m), &expect_agg(Stat::Mean, &x, mp), obs)?;
+    chk("vmean_var.var:large-int", nan_opt(v), &expect_agg(Stat::Var, &x, mp), obs)?;
+    chk("vstd:large-int", nan_opt(with_src!(c, d, |it| sa::vstd(it, mp))), &expect_agg(Stat::Std, &x, mp), obs)?;
+    chk("vskew:large-int", nan_opt(with_src!(c, d, |it| sa::vskew(it, mp))), &expect_agg(Stat::Skew, &x, mp), obs)?;
+    chk("vkurt:large-int", nan_opt(with_src!(c, d, |it| sa::vkurt(it, mp))), &expect_agg(Stat::Kurt, &x, mp), obs)?;
+    let g = sa::vcov(d.clone(), e.clone(), mp).to_logical();
+    chk("vcov:large-int", g, &expect_agg2(Stat2::Cov, &x, &y, mp), obs)?;
+    let g = with_src!(c, d, |it| sa::vcorr_pearson(it, e.clone(), mp));
+    chk("vcorr_pearson:large-int", nan_opt(g), &expect_agg2(Stat2::Corr, &x, &y, mp), obs)?;
+    // masked mean
+    let mask: Vec<Option<bool>> = c.y.iter().map(|v| v.map(|v| v > 0.0)).collect();
+    let sel: Series = x.iter().zip(mask.iter()).map(|(v, m)| if *m == Some(true) { *v } else { None }).collect();
+    chk("vmean_filter:large-int", nan_opt(sa::vmean_filter(d.clone(), mask.clone(), mp)), &expect_agg(Stat::Mean, &sel, mp), obs)?;
+    inf_typed::<T>(c, &x, obs)?;
+    let valid: Vec<f64> = x.iter().filter_map(|v| *v).collect();
+    let total: f64 = valid.iter().sum();
+    obs.set_nontrivial(valid.len() >= 2 && total.abs() > i32::MAX as f64);
+    obs.class_if(total.abs() > i32::MAX as f64, "sum_exceeds_i32");
+    Ok(())
+}
+
+fn check_large_int(c: &AggCase, obs: &mut Obs) -> CheckResult {
+    if c.x.iter().chain(c.y.iter()).flatten().any(|v| v.fract() != 0.0) {
+        obs.class("not_integer_valued_skipped");
+        return Ok(());
+    }
+    match c.enc {
+        Enc::I32 => large_int_typed::<i32>(c, obs)?,
+        _ => large_int_typed::<Option<i32>>(c, obs)?,
+    }
+    // the plain mean on null-free data
+    let peak = c.x.iter().flatten().fold(1.0f64, |m, v| m.max(v.abs()));
+    let k = (2_100_000_000.0 / peak).floor().max(1.0);
+    let x: Series = c.x.iter().map(|v| Some((v.unwrap_or(0.0) * k).round())).collect();
+    let d: Vec<i32> = materialize(&x);
+    if !d.is_empty() {
+        chk("mean:large-int", with_src!(c, d, |it| sa::mean(it)), &expect_agg(Stat::Mean, &x, 0), obs)?;
+    }
+    Ok(())
+}
+
 fn check_extrema(c: &AggCase, obs: &mut Obs) -> CheckResult {
     nontrivial(c, obs);
     by_enc_nullable!(c, arg_typed, c, &c.x, obs)?;
@@ -535,6 +597,7 @@ fn main() {
     p.add(sub("arg_extrema_plain", 12000, 400000, agg_case, check_extrema));
     p.add(sub("masked_sum_mean", 12000, 400000, agg_case, check_filter));
     p.add(sub("cov_corr", 12000, 400000, agg_case, check_two));
+    p.add(sub("large_integers", 6000, 200000, agg_case, check_large_int));
     p.add(sub("extrema_with_infinities", 6000, 200000, agg_case, check_inf));
     p.add(sub("long:sum_mean_moments_extrema", 1500, 40000, agg_case_long, check_moments));
     p.add(sub("long:masked_sum_mean", 800, 20000, agg_case_long, check_filter));
